@@ -157,7 +157,13 @@ func (p *p2cPicker) buildDoneFunc(c *subConn) func(balancer.DoneInfo) {
 			success = 0
 		}
 		oSuccess := atomic.LoadUint64(&c.success)
-		atomic.StoreUint64(&c.success, uint64(float64(oSuccess)*w+float64(success)*(1-w)))
+		nSuccess := float64(oSuccess)*w + float64(success)*(1-w)
+		if uint64(success) > oSuccess {
+			// 向上取整：完成得很密集时（w 接近 1）增量不足 1，截断会让分数只降不升，
+			// 恢复正常的后端永远回不到健康
+			nSuccess = math.Ceil(nSuccess)
+		}
+		atomic.StoreUint64(&c.success, uint64(nSuccess))
 
 		stamp := p.stamp.Load()
 		if now-stamp >= logInterval {
